@@ -114,6 +114,9 @@ type Ind struct {
 	Window bool
 	// Recursive says that an ill-conditioned position contaminates all later ones.
 	Recursive bool
+	// ZeroF: the float parameters may be 0 (the formula is defined there: an EMA whose smoothing
+	// constant is 0 stays at its initial average).
+	ZeroF bool
 	// NS is the number of nested EMA instances whose Smoothing field is exported (Config.S).
 	NS int
 }
@@ -191,6 +194,9 @@ func (ind Ind) genPF(t *rapid.T, maxSmall int) Config {
 	for i, d := range ind.FParams {
 		// multipliers / percentages: dyadic values around the default, > 0
 		k := rapid.IntRange(1, 24).Draw(t, fmt.Sprintf("f%d", i))
+		if ind.ZeroF && rapid.IntRange(0, 9).Draw(t, "zero_f") == 4 {
+			k = 0 // the zero value of the field (a struct literal leaves it at that)
+		}
 		c.F = append(c.F, d*float64(k)/8)
 	}
 	if ind.Fix != nil {
